@@ -131,7 +131,8 @@ PROPS["C11"] = dict(
            "Diff4": "write differs", "Diff5": "fill differs", "Diff6": "array-like differs",
            "SpecFail1": "Buffer.from(b.toString(enc), enc) is not b", "SpecFail2": "toString is not the encoding of the clamped sub-range",
            "SpecFail3": "fill is not the cyclic repetition of the decoded pattern", "SpecFail4": "array-like element not stored modulo 256",
-           "SpecFail5": "Go panic escaped", "SpecFail6": "hang"},
+           "SpecFail5": "Go panic escaped", "SpecFail6": "hang",
+           "SpecFail7": "write did not store exactly the whole characters / bytes that fit in min(length, room)"},
     trusted=["goja typed arrays / ArrayBuffer sharing; x/text UTF-8 transcoders, encoding/hex, encoding/base64, dop251/base64dec (modelled, compared)"],
     assumptions=["latin1/ascii/utf16le are not implemented by the library and are outside the claim"],
 )
